@@ -3913,9 +3913,10 @@ class OptionalNode(ActionSinkNode):
         if sub_dfa.starting_state in sub_dfa.accepting_states:
             raise IllegalDFAStateError("Ambigious path in optional: should use optional or go to next", sub_dfa.starting_state)
 
-        if any(True for _ in sub_dfa.transitions_pointing_to(sub_dfa.starting_state)):
+        if isinstance(sub_dfa.starting_state, DFProxyState) or any(True for _ in sub_dfa.transitions_pointing_to(sub_dfa.starting_state)):
             # The contents come back to their own first state (they start with a loop): entering the optional needs a state
-            # of its own, otherwise the optional could be left (skipped) again after any iteration.
+            # of its own, otherwise the optional could be left (skipped) again after any iteration. The same goes for contents
+            # that start with a condition: a condition point cannot carry the transitions of what follows the optional.
             entry_dfa = DFA()
             entry_state = DFState()
             entry_dfa.add(entry_state)
